@@ -18,6 +18,8 @@ enum L {
     Rewrite(usize),
     Snapshot(usize),
     ShutdownRestart,
+    /// as ShutdownRestart, but the next start-up meets the directory entries in the opposite order
+    ShutdownRestartReversed,
     KillRestart,
 }
 
@@ -210,7 +212,10 @@ impl SeqModel for C16 {
         let intents: Vec<&Intent> = w.intents.values().collect();
         let flag = std::fs::read(w.ctx.dir.join("is-oplog.valid")).unwrap_or_default();
         let keyfile = std::fs::read(w.ctx.dir.join("keys-nun.keys")).map(|b| b.len()).unwrap_or(0);
-        format!("{:?}|{:?}|{:?}|{:?}|{:?}|{:?}|{}|{}|{:?}|{:?}", ids, km, all, recs, intents, flag, keyfile, w.node.dbs.is_oplog_valid.load(std::sync::atomic::Ordering::SeqCst), w.created, (&w.first_key, &w.snapshotted, w.orphaned.len()))
+        // the order in which the last start-up met the directory entries is part of the key: what
+        // start-up derives from that order (e.g. a counter) is state the other fields cannot see
+        let order = w.ctx.dir_desc.load(std::sync::atomic::Ordering::SeqCst) && ids.len() > 2;
+        format!("{:?}|{:?}|{:?}|{:?}|{:?}|{:?}|{}|{}|{:?}|{:?}|{}", ids, km, all, recs, intents, flag, keyfile, w.node.dbs.is_oplog_valid.load(std::sync::atomic::Ordering::SeqCst), w.created, (&w.first_key, &w.snapshotted, w.orphaned.len()), order)
     }
     fn enabled(&self, w: &W, letter: usize) -> bool {
         match &self.letters[letter] {
@@ -248,13 +253,13 @@ impl SeqModel for C16 {
                 L::Snapshot(i) => {
                     w.admin.exec(&w.node, &format!("snapshot false {}", DBS[*i]));
                 }
-                L::ShutdownRestart => restart_kind = Some(true),
+                L::ShutdownRestart | L::ShutdownRestartReversed => restart_kind = Some(true),
                 L::KillRestart => restart_kind = Some(false),
             }
             w.absorb();
             match &l {
                 L::Snapshot(_) => w.node.run_snapshot_queue(),
-                L::ShutdownRestart => nundb::db_ops::safe_shutdown(&w.node.dbs),
+                L::ShutdownRestart | L::ShutdownRestartReversed => nundb::db_ops::safe_shutdown(&w.node.dbs),
                 _ => {}
             }
         }));
@@ -317,6 +322,7 @@ impl SeqModel for C16 {
             // really restart: the old process is gone
             w.node.shutdown();
             let ctx = w.ctx.clone();
+            ctx.dir_desc.store(matches!(l, L::ShutdownRestartReversed), std::sync::atomic::Ordering::SeqCst);
             let r = std::panic::catch_unwind(std::panic::AssertUnwindSafe(|| Node::start(ctx, "n1:1", 1)));
             match r {
                 Err(e) => return v("restart:startup-panic", format!("{:?}: {}", l, panic_msg(&e))),
@@ -364,12 +370,44 @@ pub fn run(run: &mut Run) {
     }
     letters.push(L::Rewrite(0));
     letters.push(L::ShutdownRestart);
+    letters.push(L::ShutdownRestartReversed);
     letters.push(L::KillRestart);
     let m = C16 { letters, crash_states: Default::default(), crash_distinct: Default::default() };
     let cfg = SeqConfig { max_depth: if quick { 6 } else { 7 }, workers: crate::util::workers(), max_states: 2_000_000, budget: std::time::Duration::from_secs(if quick { 45 } else { 1500 }) };
     let res = explore(&m, &cfg);
     super::seq_report(run, &m, &res, &cfg);
-    let cs = m.crash_states.load(std::sync::atomic::Ordering::Relaxed);
+    // second pass, from a non-initial state: two databases already created and snapshotted, then
+    // every history of 3 more steps over the alphabet with a third database (no merging).  Reaches
+    // "restart with several persisted databases, then create another one" inside the quick bound.
+    let mut letters3 = vec![];
+    for i in 0..3 {
+        letters3.push(L::CreateDb(i));
+        letters3.push(L::NewKey(i));
+        letters3.push(L::Snapshot(i));
+    }
+    letters3.push(L::Rewrite(0));
+    letters3.push(L::ShutdownRestart);
+    letters3.push(L::ShutdownRestartReversed);
+    letters3.push(L::KillRestart);
+    let m3 = C16 { letters: letters3, crash_states: Default::default(), crash_distinct: Default::default() };
+    {
+        let names = m3.letters();
+        let idx = |n: &str| names.iter().position(|l| l == n).unwrap();
+        let prefix = vec![idx("CreateDb(0)"), idx("CreateDb(1)"), idx("Snapshot(0)"), idx("Snapshot(1)")];
+        let all: Vec<usize> = (0..names.len()).collect();
+        let depth = if quick { 3 } else { 4 };
+        let res3 = crate::seq::explore_all_histories(&m3, &prefix, &all, depth, crate::util::workers(), std::time::Duration::from_secs(if quick { 60 } else { 1200 }));
+        run.cov("second_pass", serde_json::json!({"root": ["CreateDb(0)", "CreateDb(1)", "Snapshot(0)", "Snapshot(1)"], "alphabet_size": names.len(), "depth": depth, "histories": res3.histories, "complete": res3.exhausted_bound, "merging": false}));
+        let ex = run.coverage.get("exhaustive").and_then(|v| v.as_bool()).unwrap_or(false);
+        let keep: Vec<(String, serde_json::Value)> = ["depth_bound", "alphabet_size", "depth_completed", "frontier_sizes"].iter().filter_map(|k| run.coverage.get(*k).map(|v| (k.to_string(), v.clone()))).collect();
+        let cfg3 = SeqConfig { max_depth: depth, workers: 0, max_states: 0, budget: std::time::Duration::from_secs(0) };
+        super::seq_report(run, &m3, &res3, &cfg3);
+        for (k, v) in keep {
+            run.cov(&k, v);
+        }
+        run.cov("exhaustive", serde_json::json!(ex && res3.exhausted_bound));
+    }
+    let cs = m.crash_states.load(std::sync::atomic::Ordering::Relaxed) + m3.crash_states.load(std::sync::atomic::Ordering::Relaxed);
     run.cov("evaluations", serde_json::json!(cs + res.transitions));
     run.cov("crash_states_restarted", serde_json::json!(cs));
     run.cov("distinct_nontrivial", serde_json::json!(m.crash_distinct.lock().unwrap().len()));
